@@ -78,6 +78,21 @@ Theorem frame_main_resolves_under_main_framer : forall nm (c : ctx N) x rest,
 Proof. exact frame_main_under_main_framer. Qed.
 Print Assumptions frame_main_resolves_under_main_framer.
 
+(* Clone inode rule (buildAux / resolveMoots) and its consequence: the aux verb's via replaces the moot's
+   own via, an absent via clause gives the EMPTY inode (only `via mine` keeps the moot's); and when no
+   inode is contributed by act, frames or framers a root relative reference resolves to itself, i.e.
+   independently of every framer, frame, actor and clone tag name. *)
+Theorem clone_inode_rule : forall moot_via, clone_inode moot_via ViaAbsent = [] /\
+  clone_inode moot_via ViaMine = moot_via /\ forall p, clone_inode moot_via (ViaGiven p) = p.
+Proof. exact clone_without_via. Qed.
+Print Assumptions clone_inode_rule.
+
+Theorem root_relative_without_inodes_is_name_independent : forall nm (c : ctx N) x rest,
+  act_inode c = None -> fparts_of N clsN c = [] -> oparts_of N clsN c = [] -> clsN x = KOther ->
+  resolve_str nm c (x :: rest) = Ok (x :: rest).
+Proof. exact no_inode_root_relative. Qed.
+Print Assumptions root_relative_without_inodes_is_name_independent.
+
 (* aiding.nameToPath as TRANSLATED from the source (gen/NameToPath.v) is the documented rule: every
    upper case letter opens a new node (a dot and its lower case), the path ends in a dot. *)
 Theorem name_to_path_is_documented_rule : forall name, name_to_path name = ref_name_to_path name.
